@@ -99,6 +99,26 @@ def main():
                     getattr(client, meth)(**{attr: 'v', 'plain': 'p'})
                     d = decoded()
                     o['wire_seen'] = w if d.get(w) == 'v' and d.get('plain') == 'p' else ('?' + json.dumps(d))
+                elif position == 'flattened_dotted':
+                    params = list(inspect.signature(getattr(client, meth)).parameters)
+                    o['surface_seen'] = attr if attr in params else (w if w in params else '')
+                    getattr(client, meth)(**{attr: 'v', 'plain': 'p', 'other': 'o'})
+                    d = decoded()
+                    inner = d.get('inner') or {}
+                    o['wire_seen'] = w if inner.get(w) == 'v' and inner.get('other') == 'o' and d.get('plain') == 'p' else ('?' + json.dumps(d))
+                elif position == 'http_path_sibling':
+                    fs = fields_of(M)
+                    o['surface_seen'] = attr if attr in fs else (w if w in fs else '')
+                    sib = (w + '_id_') if (w + '_id_') in fs else (w + '_id')
+                    getattr(rclient, meth)(request=M(**{attr: 'items/x', sib: 'k1', 'plain': 'p'}))
+                    h = state['http']
+                    ok_path = h and h['path'] == f'/v1/m{i}/k1/things/items/x'
+                    q = urllib.parse.parse_qsl(h['query']) if h else []
+                    body = json.loads(h['body'].decode() or '{}') if h else None
+                    getattr(client, meth)(request=M(**{attr: 'items/x', sib: 'k1'}))
+                    hp = header()
+                    ok_hdr = (w, 'items/x') in hp and (w + '_id', 'k1') in hp
+                    o['wire_seen'] = w if ok_path and ok_hdr and body == {'plain': 'p'} else f'?path={h and h["path"]} body={body} header={hp}'
                 elif position == 'http_path_top':
                     fs = fields_of(M)
                     o['surface_seen'] = attr if attr in fs else (w if w in fs else '')
@@ -197,6 +217,13 @@ def main():
                         await getattr(aclient, meth)(**{attr: 'v', 'plain': 'p'})
                         d = decoded()
                         seen = d.get(w) == 'v' and d.get('plain') == 'p'
+                    elif position == 'flattened_dotted':
+                        params = list(inspect.signature(getattr(aclient, meth)).parameters)
+                        if attr not in params:
+                            o['problems'].append(f'asyncio client: parameters {params} lack {attr}')
+                        await getattr(aclient, meth)(**{attr: 'v', 'plain': 'p', 'other': 'o'})
+                        d = decoded()
+                        seen = (d.get('inner') or {}).get(w) == 'v' and (d.get('inner') or {}).get('other') == 'o' and d.get('plain') == 'p'
                     elif position == 'http_path_top':
                         await getattr(aclient, meth)(request=M(**{attr: 'items/x'}))
                         seen = (w, 'items/x') in header()
